@@ -276,3 +276,20 @@ LEVEL_TEXT["C11"] = {
     "note": "Chunk stealing interleavings are sampled (perturbation at the index queue's load/CAS windows, CPU restriction).",
     "technique": "property-based testing (boundary-biased shapes, bitmap/ledger oracles, fork-per-case real runtime)",
 }
+
+PROPS["C10"] = {
+    "targets": [rt("props/C10_placement.cpp", 800, 70, 10000, 900)],
+    "rule": "case = layout of 1..4 pools (default + pools created through the resource partitioner; 7 scheduling policies; 1..4 workers each; "
+            "stealing on/off) x 1..7 jobs submitted from the main OS thread or from a task of a generated pool, each a pipeline of 1..5 hops in "
+            "{schedule, transfer_just, continues_on, bulk, std_thread_scheduler} (or a single execute) on generated pools with hint / "
+            "priority decorations and bodies that yield, suspend (woken from another pool) or both; every callable records pool, local "
+            "worker, task id and OS thread at entry and after every re-activation; non-trivial iff >=2 pools with different policies and "
+            ">=2 pool crossings by continues_on, or a hinted normal-priority task on a static policy ran >=3 phases; distinct by hash",
+    "floor": {"quick": 50, "thorough": 500},
+    "assumptions": ["shared-priority pools are not generated here (see C13 known finding F10 / C02 fix)", "layouts that the machine cannot realise are discarded"],
+}
+LEVEL_TEXT["C10"] = {
+    "text": "Generated pool layouts and scheduler pipelines run on the real runtime; inside every callable and after every yield/suspension the harness records pool, local worker, task id and OS thread and compares with the placement the pipeline denotes: task context present, pool equals the scheduler's pool, a different task than the submitter/previous hop (never inside the submitting call), static policy + normal priority + hint => every phase on the hinted worker, std_thread_scheduler work on a non-pika non-worker thread.",
+    "note": "Placement under stealing is schedule dependent and sampled; the machine has 16 PUs, layouts use at most 14 workers, unbound (bind=none) so that parallel shards do not pile on the same PUs.",
+    "technique": "property-based testing (generated pool layouts x scheduler pipelines, placement recorder oracle)",
+}
